@@ -37,7 +37,7 @@ theorem writer_shape :
       "if w.flushed != w.position { if err := w.write([]byte{EOS}); err != nil { return err } w.flushed = w.position }",
       "w.types.Reset()", "return nil"] ∧
     eosAction = "p.types.reset(); continue" ∧
-    maxSizeChecks = ["readFrame: size > p.maxSize", "readCompressedFrame: size > p.maxSize"] := by
+    maxSizeChecks = ["readFrame: size > p.maxSize", "readCompressedFrame: size < 0 || size > p.maxSize"] := by
   decide
 
 /-- The flush condition is monotone in both buffer lengths and fires exactly at the threshold
